@@ -745,10 +745,15 @@ macro_rules! visit_x_tokens {
         if $brk < 0 {
             // parse (EmptyVisitor) == visit with a recording visitor
             let rp = <$ty as Parse>::parse(inp);
-            write!(s, " x_parse_eq={}", (rp == $r) as u8).unwrap();
+            // the same calls written the way users write them (`Type::parse(..)`): an inherent function of that name
+            // would shadow the trait method on this path only
+            let rpath = <$ty>::parse(inp);
+            write!(s, " x_parse_eq={}", (rp == $r && rpath == $r) as u8).unwrap();
             let mut ev = EmptyVisitor {};
             let rv = <$ty as Visit>::visit(inp, &mut ev);
-            write!(s, " x_emptyvisit_eq={}", (rv == $r) as u8).unwrap();
+            let mut ev2 = EmptyVisitor {};
+            let rvpath = <$ty>::visit(inp, &mut ev2);
+            write!(s, " x_emptyvisit_eq={}", (rv == $r && rvpath == $r) as u8).unwrap();
             if let Ok(p) = &$r {
                 let view: &[u8] = p.parsed().as_ref();
                 // re-parse
@@ -1108,6 +1113,15 @@ fn run_block(inp: &[u8], brk: i64) -> String {
             let mut decoys: Vec<bitcoin::Txid> = b.txdata.iter().take(8).map(|t| bitcoin::Txid::from_byte_array(t.compute_wtxid().to_byte_array())).collect();
             decoys.push(bitcoin::Txid::from_byte_array(b.header.merkle_root.to_byte_array()));
             decoys.push(bitcoin::Txid::from_byte_array(b.block_hash().to_byte_array()));
+            // near misses: the id of a present transaction with one bit flipped in its first, 21st and last byte
+            for t in b.txdata.iter().take(3) {
+                let id = t.compute_txid().to_byte_array();
+                for pos in [0usize, 20, 31] {
+                    let mut m = id;
+                    m[pos] ^= 0x10;
+                    decoys.push(bitcoin::Txid::from_byte_array(m));
+                }
+            }
             for d in decoys {
                 if !ids.contains(&d) { ids.push(d); }
             }
